@@ -449,7 +449,6 @@ type c16Run struct {
 	distinct map[string]bool
 	tree     map[string]*neotest.Contract
 	pools    *c16Pools
-	nullSeen int
 }
 
 func (r *c16Run) msRow(m int, ks [][]byte, addr []byte) {
@@ -600,7 +599,7 @@ func (r *c16Run) gateSweep(v int64, withAlphabet bool, sets []string) {
 	r.st.Histories++
 }
 
-func (r *c16Run) writeCases(path string) {
+func (r *c16Run) writeCases(path string, acases []string, stdaccRows map[string]string) {
 	var sb strings.Builder
 	sb.WriteString("From Verif Require Import Base.Prelude Model.MigStore Model.Migration.\nLocal Open Scope Z_scope.\n")
 	// table rows reference pool/list names: render them before the definitions are printed
@@ -619,8 +618,15 @@ func (r *c16Run) writeCases(path string) {
 	sb.WriteString("Definition cases : list mcase := [\n")
 	sb.WriteString(strings.Join(r.w.cases, ";\n"))
 	sb.WriteString("\n].\n")
+	var srows []string
+	for k, v := range stdaccRows {
+		srows = append(srows, fmt.Sprintf("(%s, %s)", k, v))
+	}
+	sort.Strings(srows)
+	sb.WriteString("Definition stdacc_rows : list (bytes * bytes) := " + ListLit(srows) + ".\n")
+	sb.WriteString("Definition acases : list acase := " + ListLit(acases) + ".\n")
 	fmt.Fprintf(&sb, "Example constants_of_the_tree : (real_prev, real_version) = (%d, %d).\nProof. reflexivity. Qed.\n", common.PrevVersion, common.Version)
-	sb.WriteString("Definition M := Eval vm_compute in failures_from 0\n  (map (check_mig (ms_table ms_rows) (fun _ => None) (bytes_table h160_rows) real_prev real_version) cases).\nPrint M.\n")
+	sb.WriteString("Definition M := Eval vm_compute in failures_from 0\n  (map (check_mig (ms_table ms_rows) (fun _ => None) (bytes_table h160_rows) real_prev real_version) cases ++\n   map (check_alpha (opt_table stdacc_rows) real_prev real_version) acases).\nPrint M.\n")
 	require.NoError(r.t, os.WriteFile(path, []byte(sb.String()), 0o644))
 }
 
@@ -644,10 +650,11 @@ func TestC16(t *testing.T) {
 	r.gateSweep(prev, false, []string{"stranger", "committee4of6"})
 	r.pools = newC16Pools()
 	r.partB()
+	acases, stdaccRows := r.partC()
 
 	r.st.DistinctNontrivial = len(r.distinct)
 	r.st.Rule = "distinct (part, contract, deployed version or storage shape signature, signer set / data shape, outcome incl. fault reason) tuples"
-	r.writeCases(filepath.Join(OutDir(), "cases_C16.v"))
+	r.writeCases(filepath.Join(OutDir(), "cases_C16.v"), acases, stdaccRows)
 	r.st.Write()
 }
 
@@ -998,7 +1005,7 @@ type nmTruth struct {
 	cands     []nmNode           // in key order
 	config    map[string][]byte
 	subs      [][]byte // expected subscribers (hashes) in index order, nil = not applicable
-	nullSnaps []int64  // snapshots that the 0.15 -> 0.16 re-encoding turns into Null
+	nullSnaps []int64  // empty pre-0.16 snapshots (F15 regression guard)
 }
 
 func genNetmap(t testing.TB, r *rand.Rand, p *c16Pools, v int64) *legacy {
@@ -1554,15 +1561,11 @@ func (r *c16Run) checkNetmap(v *Env, h util.Uint160, l *legacy, am map[string][]
 			continue
 		}
 		want, stored := tr.snaps[id]
-		if stored && isNull(it) && isNullSnap(id) {
-			// F15: an empty pre-0.16 snapshot is re-encoded from a nil slice and
-			// reads back as Null instead of the empty array
-			r.st.AddKnown("C16/netmap-empty-snapshot-null")
-			r.nullSeen++
-			continue
-		}
 		if stored && isNull(it) {
-			bad("snapshot(%d) is Null after the update", d)
+			// regression guard for F15 (fixed in /repo by 3adfa7f): an empty
+			// pre-0.16 snapshot used to be re-encoded from a nil slice and read
+			// back as Null instead of the empty array
+			bad("snapshot(%d) is Null after the update (empty pre-0.16 snapshot: %v)", d, isNullSnap(id))
 			continue
 		}
 		if !sameNodes(it, want) {
@@ -1571,7 +1574,7 @@ func (r *c16Run) checkNetmap(v *Env, h util.Uint160, l *legacy, am map[string][]
 	}
 	if it, err := v.Read(h, "netmap"); err != nil {
 		bad("netmap() faults after the update: %v", err)
-	} else if want, stored := tr.snaps[tr.current]; !(stored && isNull(it) && isNullSnap(tr.current)) && !sameNodes(it, want) {
+	} else if want, stored := tr.snaps[tr.current]; (stored && isNull(it)) || !sameNodes(it, want) {
 		bad("netmap() differs after the update")
 	}
 	if it, err := v.Read(h, "netmapCandidates"); err != nil || !sameNodes(it, tr.cands) {
@@ -1759,7 +1762,7 @@ func (r *c16Run) corpus() []*legacy {
 		l.Premise = false
 		l.shape("corpus:estimation-key-of-length-57")
 	})
-	// F15: empty pre-0.16 snapshot becomes Null
+	// F15 (fixed): an empty pre-0.16 snapshot must stay an empty list
 	mk("netmap", prev, func(l *legacy) {
 		l.nm = &nmTruth{count: 2, current: 0, epoch: 3, snaps: map[int64][]nmNode{0: nil, 1: {{p.blob[0], 1}}}, config: map[string][]byte{}, nullSnaps: []int64{0}}
 		l.put([]byte("snapshotCount"), intBytes(2))
@@ -1825,4 +1828,193 @@ func (r *c16Run) partB() {
 			r.runLegacy(r.gen(rr, pl.c, v), coq[pl.c])
 		}
 	}
+}
+
+// ---------------------------------------------------------------------------
+// Part C: the Alphabet contract's GAS distribution (0.16 -> 0.17 switch)
+
+type alphaCase struct {
+	Name      string   `json:"name"`
+	Gas       int64    `json:"gas"`
+	SN        int      `json:"storage_nodes"`
+	IR        int      `json:"inner_ring"`
+	ProxyArg  []byte   `json:"proxy_arg"`
+	NetmapArg string   `json:"netmap_arg"` // "hash", "empty", "bad"
+	ShortBlob bool     `json:"short_blob,omitempty"`
+	BadIRKey  bool     `json:"bad_ir_key,omitempty"`
+	Ballots   string   `json:"ballots"` // "absent", "expired", "pending"
+	Halt      bool     `json:"halt"`
+	Fault     string   `json:"fault,omitempty"`
+	Transfers []string `json:"transfers,omitempty"`
+}
+
+func (r *c16Run) runAlphabetGas(ac *alphaCase, acases *[]string, stdaccRows map[string]string) {
+	t := r.t
+	v := NewEnv(t)
+	rr := Rng(int64(900000 + len(*acases)))
+	sender := v.E.Validator.ScriptHash()
+	nw := c16Compile(t, sender, RepoDir, "alphabet")
+	stub := r.stubFor(v, nw, "alphabet")
+	v.E.DeployContract(t, stub, nil)
+	h := stub.Hash
+	nm := v.CompileHelper("c16netmap")
+	nmc := *nm
+	nmc.Hash = state.CreateContractHash(sender, nm.NEF.Checksum, nm.Manifest.Name)
+	v.E.DeployContract(t, &nmc, nil)
+
+	var nodes []stackitem.Item
+	var nodesCoq []string
+	regKey := func(a *wallet.Account) []byte {
+		pk := a.PublicKey().Bytes()
+		stdaccRows[r.w.pool.Ref(pk)] = r.w.pool.Ref(a.ScriptHash().BytesBE())
+		return pk
+	}
+	for i := 0; i < ac.SN; i++ {
+		pk := regKey(c16Account(t, rr))
+		blob := cat([]byte{0x0a, 0x21}, pk, []byte{1, 2, 3})
+		if ac.ShortBlob && i == ac.SN-1 {
+			blob = blob[:34]
+		}
+		nodes = append(nodes, siStruct(siBytes(blob), siInt(1)))
+		nodesCoq = append(nodesCoq, fmt.Sprintf("IStruct [IBytes %s; IInt 1%%Z]", r.w.pool.Ref(blob)))
+	}
+	var irs []stackitem.Item
+	var irKeys [][]byte
+	for i := 0; i < ac.IR; i++ {
+		pk := regKey(c16Account(t, rr))
+		if ac.BadIRKey && i == 0 {
+			pk = bytes.Repeat([]byte{7}, 33)
+		}
+		irs = append(irs, siStruct(siBytes(pk)))
+		irKeys = append(irKeys, pk)
+	}
+	require.True(t, v.Invoke(nil, nmc.Hash, "set", "netmap", ser(t, stackitem.NewArray(nodes))).Halt)
+	require.True(t, v.Invoke(nil, nmc.Hash, "set", "innerRingList", ser(t, stackitem.NewArray(irs))).Halt)
+
+	kv := map[string][]byte{"notary": {1}, "netmapScriptHash": nmc.Hash.BytesBE(), "name": []byte("Az"), "index": {}, "threshold": {7}}
+	switch ac.Ballots {
+	case "expired":
+		kv["ballots"] = ser(t, siArray(siStruct(siBytes([]byte{1}), siArray(), siInt(c16Height-21))))
+	case "pending":
+		kv["ballots"] = ser(t, siArray(siStruct(siBytes([]byte{1}), siArray(), siInt(c16Height-20))))
+	}
+	var flat []any
+	for _, x := range c16Dump(func() map[string]string {
+		m := map[string]string{}
+		for k, b := range kv {
+			m[k] = string(b)
+		}
+		return m
+	}()) {
+		flat = append(flat, x.K, x.V)
+	}
+	require.True(t, v.Invoke(nil, h, "putMany", flat).Halt)
+	gasH, err := v.BC.GetNativeContractScriptHash(nativenames.Gas)
+	require.NoError(t, err)
+	if ac.Gas > 0 {
+		res := v.Invoke(nil, gasH, "transfer", sender, h, ac.Gas, nil)
+		require.True(t, res.Halt, res.Fault)
+	}
+	for int(v.BC.BlockHeight()) < c16Height {
+		v.E.AddNewBlock(t)
+	}
+	require.Equal(t, c16Height, int(v.BC.BlockHeight()))
+	var nmArg []byte
+	switch ac.NetmapArg {
+	case "hash":
+		nmArg = nmc.Hash.BytesBE()
+	case "bad":
+		nmArg = []byte{1, 2, 3}
+	}
+	data := c16Arr(c16Bool(false), c16Bytes(nmArg), c16Bytes(ac.ProxyArg), c16Bytes([]byte("Az")), c16Int(16000))
+	gasBefore := v.ReadInt(gasH, "balanceOf", h).Int64()
+	require.Equal(t, ac.Gas, gasBefore)
+	before := c16Dump(v.StorageDump(h))
+	nb, mb := c16NefManifest(t, nw)
+	res := v.Invoke(nil, h, "update", nb, mb, data.arg())
+	after := c16Dump(v.StorageDump(h))
+	ac.Halt, ac.Fault = res.Halt, shortFault(res.Fault)
+	var trs []string
+	total := int64(0)
+	for _, ev := range res.Events {
+		if ev.ScriptHash != gasH || ev.Name != "Transfer" {
+			continue
+		}
+		it := ev.Item.Value().([]stackitem.Item)
+		if !bytes.Equal(ItemBytes(it[0]), h.BytesBE()) {
+			continue
+		}
+		amt := ItemInt(it[2])
+		total += amt.Int64()
+		trs = append(trs, fmt.Sprintf("(%s, %s)", r.w.pool.Ref(ItemBytes(it[1])), ZLit(amt)))
+		ac.Transfers = append(ac.Transfers, fmt.Sprintf("%x:%v", ItemBytes(it[1]), amt))
+	}
+	// Go monitor: the distribution never exceeds 3/4 of the balance, storage
+	// unchanged on fault, the notary flag is gone and the proxy stored on halt
+	bad := func(f string, a ...any) { r.st.AddViolation("C16 alphabet GAS distribution: "+fmt.Sprintf(f, a...), ac) }
+	if !res.Halt && !c16DumpEq(before, after) {
+		bad("faulted update changed the storage")
+	}
+	if res.Halt {
+		if total > ac.Gas*3/4 {
+			bad("distributed %d of %d GAS (more than 3/4)", total, ac.Gas)
+		}
+		if got := v.ReadInt(gasH, "balanceOf", h).Int64(); got != ac.Gas-total {
+			bad("GAS balance after = %d, expected %d", got, ac.Gas-total)
+		}
+		am := map[string][]byte{}
+		for _, x := range after {
+			am[string(x.K)] = x.V
+		}
+		if _, ok := am["notary"]; ok {
+			bad("notary flag survived")
+		}
+		if len(ac.ProxyArg) == 20 && !bytes.Equal(am["proxyScriptHash"], ac.ProxyArg) {
+			bad("proxy hash not stored")
+		}
+	}
+	var irRefs []string
+	for _, k := range irKeys {
+		irRefs = append(irRefs, r.w.pool.Ref(k))
+	}
+	*acases = append(*acases, fmt.Sprintf("mkACase (env_alphabet %d%%Z %d%%Z %s %s %s) (%s) %s %s %s %s",
+		c16Height, ac.Gas, r.w.pool.Ref(nmc.Hash.BytesBE()), ListLit(nodesCoq), ListLit(irRefs), data.coq(r.w.pool),
+		r.w.dump(before), BoolLit(res.Halt), r.w.dump(after), ListLit(trs)))
+	r.st.Evaluations++
+	r.st.Histories++
+	r.st.OpHistogram["alphabet-gas"]++
+	oc := "halt"
+	if !res.Halt {
+		oc = "fault:" + ac.Fault
+	}
+	r.st.OutcomeHistogram["alphabet-gas/"+oc]++
+	r.distinct["alpha|"+ac.Name+"|"+oc] = true
+}
+
+func (r *c16Run) partC() ([]string, map[string]string) {
+	px := r.pools.acc[7]
+	cases := []*alphaCase{
+		{Name: "2sn-1ir", Gas: 10_0000_0000, SN: 2, IR: 1, ProxyArg: px, NetmapArg: "hash", Ballots: "expired"},
+		{Name: "notary-cap", Gas: 1000_0000_0000, SN: 1, IR: 0, ProxyArg: px, NetmapArg: "hash", Ballots: "absent"},
+		{Name: "odd-amounts", Gas: 1_0000_0007, SN: 1, IR: 2, ProxyArg: px, NetmapArg: "empty", Ballots: "absent"},
+		{Name: "tiny", Gas: 3, SN: 2, IR: 1, ProxyArg: px, NetmapArg: "hash", Ballots: "absent"},
+		{Name: "no-gas", Gas: 0, SN: 1, IR: 1, ProxyArg: px, NetmapArg: "hash", Ballots: "absent"},
+		{Name: "one-unit", Gas: 1, SN: 1, IR: 1, ProxyArg: px, NetmapArg: "hash", Ballots: "absent"},
+		{Name: "nobody", Gas: 10_0000_0000, SN: 0, IR: 0, ProxyArg: px, NetmapArg: "hash", Ballots: "absent"},
+		{Name: "pending", Gas: 10_0000_0000, SN: 1, IR: 1, ProxyArg: px, NetmapArg: "hash", Ballots: "pending"},
+		{Name: "proxy-unresolvable", Gas: 10_0000_0000, SN: 1, IR: 1, ProxyArg: nil, NetmapArg: "hash", Ballots: "absent"},
+		{Name: "proxy-19-bytes", Gas: 10_0000_0000, SN: 1, IR: 1, ProxyArg: px[:19], NetmapArg: "hash", Ballots: "absent"},
+		{Name: "netmap-3-bytes", Gas: 10_0000_0000, SN: 1, IR: 1, ProxyArg: px, NetmapArg: "bad", Ballots: "absent"},
+		{Name: "short-blob", Gas: 10_0000_0000, SN: 2, IR: 1, ProxyArg: px, NetmapArg: "hash", ShortBlob: true, Ballots: "absent"},
+		{Name: "bad-ir-key", Gas: 10_0000_0000, SN: 1, IR: 2, ProxyArg: px, NetmapArg: "hash", BadIRKey: true, Ballots: "absent"},
+	}
+	var acases []string
+	rows := map[string]string{}
+	for _, ac := range cases {
+		r.runAlphabetGas(ac, &acases, rows)
+		if ac.Name == "2sn-1ir" {
+			r.st.Samples = append(r.st.Samples, ac)
+		}
+	}
+	return acases, rows
 }
